@@ -3,11 +3,41 @@
    result-message site of the kmip package (translate/gen_logsites.py -> gen/LogSites.v).
    NOT covered by these theorems: the text third-party libraries put into their own exception
    messages, reachable at exactly the sites listed in Logs/Remainder.v (canary scan only). *)
-From Coq Require Import ZArith List Bool String.
+From Coq Require Import ZArith List Bool String Lia.
 From PK Require Import Logs.Frag Logs.FragProofs Logs.Remainder.
-From PKGen Require Import LogSites.
+From PKGen Require Import LogSites LogLevels.
 Import ListNotations.
 Open Scope string_scope.
+
+(* What "the default logging level" is, tied to the code (config.py / server.py, regenerated each run):
+   the configuration's default is INFO, nothing in KmipServerConfig removes settings, KmipServer.__init__ puts
+   the configured level on the `kmip.server` logger unconditionally, and nothing else in the package changes
+   logger levels, filters or routing (pinned).  With that threshold the records the model calls unobservable
+   (logger.debug) are exactly those that are not written. *)
+Theorem default_level_is_info :
+  default_level = 20%Z /\ default_level_name = "INFO" /\
+  server_sets_configured_level = true /\ config_removes_settings = false /\
+  setlevel_sites = setlevel_pinned /\
+  (forall k, observable k = observable_at default_level k) /\
+  (forall name v, In (name, v) level_table -> name <> "DEBUG" -> (default_level <= v)%Z).
+Proof.
+  split; [reflexivity|]. split; [reflexivity|]. split; [reflexivity|]. split; [reflexivity|].
+  split; [vm_compute; reflexivity|]. split; [exact observable_is_info_threshold|].
+  intros name v Hin Hn. unfold level_table in Hin. simpl in Hin.
+  repeat (destruct Hin as [Hin|Hin]; [inversion Hin; subst; try (exfalso; apply Hn; reflexivity); unfold default_level; lia|]).
+  contradiction.
+Qed.
+Print Assumptions default_level_is_info.
+
+(* a deployment whose effective level is below INFO does write the debug sites (Request/Response encoding...) *)
+Theorem below_default_writes_secrets :
+  exists s, In s log_sites /\ observable_at 10 (s_kind s) = true /\ existsb (is_secretish true) (s_parts s) = true.
+Proof.
+  destruct (find (fun s => observable_at 10 (s_kind s) && existsb (is_secretish true) (s_parts s)) log_sites) as [s|] eqn:E.
+  - exists s. apply find_some in E. destruct E as [Hin Hs]. apply andb_true_iff in Hs. tauto.
+  - exfalso. revert E. vm_compute. discriminate.
+Qed.
+Print Assumptions below_default_writes_secrets.
 
 (* T-obligation, full strength: every observable site (INFO+ logging call, raise, result message, print)
    of the package formats only literals and arguments of a non-secret syntactic class, and nothing read
